@@ -141,6 +141,20 @@ def cases():
         for t in ('23:00:00-05:00', '00:30:00+09:00', '23:59:59-14:00', '00:00:00+14:00', '21:15:00@America/New_York', '01:30:00@Asia/Tokyo', '12:00:00Z', '23:30:00', '00:10:00'):
             out.append(('date and time("%sT%s").weekday' % (d, t), str(wd)))
         out.append(('date("%s").weekday' % d, str(wd)))
+    # ... and for years around and below zero (proleptic Gregorian calendar: year 0 is a leap year, -100 is not, -400 is), computed with the
+    # days-from-civil algorithm written out here (CPython's datetime starts at year 1)
+    def _dfc(y, m, d):
+        y -= m <= 2
+        era = y // 400
+        yoe = y - era * 400
+        doy = (153 * (m + (-3 if m > 2 else 9)) + 2) // 5 + d - 1
+        doe = yoe * 365 + yoe // 4 - yoe // 100 + doy
+        return era * 146097 + doe - 719468
+    for y in (-401, -400, -399, -101, -100, -99, -5, -4, -3, -2, -1, 0, 1, 2, 3, 4, 5, 99, 100, 101, 400, 1600, 1900, 2000, 2400):
+        for (mm, dd) in ((1, 1), (2, 28), (3, 1), (7, 15), (12, 31)):
+            wd = (_dfc(y, mm, dd) + 3) % 7 + 1
+            out.append(('date(%d, %d, %d).weekday' % (y, mm, dd), str(wd)))
+            out.append(('date and time(date(%d, %d, %d), time("12:00:00")).weekday' % (y, mm, dd), str(wd)))
     # dates beyond the year range of the chrono library (about +-262143) are valid dates all the same (C15: up to year +-999999999)
     for y in (262142, 262143, 262144, 262145, 300000, 999999999):
         for sign in ('', '-'):
